@@ -309,7 +309,7 @@ def check(case, ctx):
     except Exception as e:  # noqa
         raise Violation("validate-raises", f"validate({_r(S)}, {g!r}) raised {e!r}")
     if res.has_errors():
-        raise Violation("fake-invalid", f"fake({_r(S)}) = {g!r} -> {res.get_errors()!r}")
+        raise Violation("fake-invalid", f"fake({_r(S)}) = {g!r} -> {_r(res.get_errors())}")
     # the other public ways of asking whether a value conforms: the == / != operators, validate_or_fail, a validator of
     # one's own
     try:
